@@ -189,6 +189,11 @@ class GeometryScenario(BaseScenario):
                 raise Violation("C07", "data_lost", f"{where}: data {name!r} is gone", discr)
             vals = snapshot.values_of(found[0])
             order = obj.vtags if d["assoc"] == "VERTEX" else obj.ctags
+            if d["values"] is None:
+                if vals is not None and len(vals) != len(order):
+                    raise Violation("C07", "count_mismatch", f"{where}: data {name!r} (declared without values) has {len(vals)} entries for {len(order)} elements",
+                                    {**discr, "assoc": d["assoc"], "data": "valueless"})
+                continue
             if vals is None or len(vals) != len(order):
                 raise Violation("C07", "count_mismatch", f"{where}: data {name!r} ({d['dkind']}, {d['assoc']}) has {None if vals is None else len(vals)} entries for {len(order)} elements",
                                 {**discr, "assoc": d["assoc"], "data": d["dkind"]})
@@ -311,6 +316,14 @@ class GeometryScenario(BaseScenario):
         elif mode == "long" and dkind != "text":
             length = n + r.randint(1, 2)
         name = f"d{len(obj.data)}_{dkind}"
+        if dkind == "float" and mode == "exact" and n and r.random() < 0.15:
+            # a data set declared without values yet: it has nothing to lose when elements go
+            ent = self.ent(ws, obj)
+            ent.add_data({name: {"association": assoc}})
+            del ent
+            obj.data[name] = {"assoc": assoc, "dkind": dkind, "values": None}
+            sim.probe("valueless_data")
+            return "ok"
         vals = [value_of(dkind, order[i] if i < n else 999) for i in range(length)]
         ent = self.ent(ws, obj)
         spec = {"values": np_of(dkind, vals), "association": assoc}
@@ -483,7 +496,7 @@ class GeometryScenario(BaseScenario):
         copy.coords = dict(obj.coords)
         copy.ctags = keep_c
         copy.cells = dict(obj.cells)
-        copy.data = {n_: {"assoc": d["assoc"], "dkind": d["dkind"], "values": dict(d["values"])} for n_, d in obj.data.items()}
+        copy.data = {n_: {"assoc": d["assoc"], "dkind": d["dkind"], "values": dict(d["values"]) if d["values"] is not None else None} for n_, d in obj.data.items()}
         del new
         w["objs"].append(copy)
         sim.probe("masked_copy")
@@ -491,7 +504,7 @@ class GeometryScenario(BaseScenario):
 
     def do_data_masked_copy(self, sim, ws, w, obj, r, cfg, path):
         """data.copy(mask=...) onto the same object: the copy holds the kept values and no-data elsewhere; the source keeps all."""
-        names = [n for n, d in obj.data.items() if d["dkind"] in FILL and d["dkind"] not in ("text",) and n not in ("tagV", "tagC")]
+        names = [n for n, d in obj.data.items() if d["dkind"] in FILL and d["dkind"] not in ("text",) and n not in ("tagV", "tagC") and d["values"] is not None]
         if not names:
             return "skipped"
         name = names[r.randrange(len(names))]
